@@ -374,7 +374,10 @@ class Parser:
         if prev.line != bracket.line:
             return False
         # Compute the raw text length of the previous token
-        if prev.type == TokenType.NUMBER and prev.raw is not None:
+        if prev.normalized_from is not None and prev.type != TokenType.STRING:
+            # an ASCII alias is as long as it was written ("->" for "→"), not as its normalized value
+            prev_len = len(prev.normalized_from)
+        elif prev.type == TokenType.NUMBER and prev.raw is not None:
             prev_len = len(prev.raw)
         elif prev.type == TokenType.BOOLEAN:
             prev_len = 4 if prev.value else 5  # "true" or "false"
